@@ -317,9 +317,13 @@ func (fr *Frame) applyContract(st *State, ct *Contract, f *ssa.Function, sig *ty
 		fr.havocClasses(st, ws, "call."+shortName(ct.key))
 	}
 	if ct.hasAssgn {
-		na := fc.fresh("alloc.call", SInt)
-		fc.assume(True, Op(">=", SBool, na, st.alloc))
-		st.alloc = na
+		if fc.initMode && st.alloc.IsLit() {
+			st.alloc = iAdd(st.alloc, IntLit64(1<<20))
+		} else {
+			na := fc.fresh("alloc.call", SInt)
+			fc.assume(True, Op(">=", SBool, na, st.alloc))
+			st.alloc = na
+		}
 	}
 	// 3. results
 	var res []*Term
